@@ -215,6 +215,15 @@ def find_bodystream(ctx):
         raise FailClosed("body stream enum not found uniquely")
     e = cands[0]
     pn2 = impl_fn(ctx, "futures_core::Stream", e["path"], "poll_next")
+    if not pn2:
+        # no hand-written Stream impl: the enum's poll function is the inherent method with a poll signature
+        # (Pin<&mut Enum>, &mut Context) -> Poll<..>, whatever it is called (it may already wrap chunks as data frames)
+        pn2 = [f["path"] for f in ctx.facts.fns.values()
+               if not f.get("impl_trait") and f.get("kind") == "assocfn" and (f.get("impl_self") or "").split("<")[0] == e["path"]
+               and f["path"] in ctx.facts.bodies and "mut std::task::Context<" in (f.get("sig") or "")
+               and ") -> std::task::Poll<" in (f.get("sig") or "") and "fn(std::pin::Pin<&" in (f.get("sig") or "")]
+        if len(pn2) > 1:
+            raise FailClosed("several inherent poll functions on the body stream enum: %s" % pn2)
     return e, pn2[0] if pn2 else None
 
 
@@ -266,6 +275,13 @@ def once_taken(ctx, rule):
             want = ("payload", ov, "Some", "0")
             if g == want:
                 return True
+            # the taken Result re-wrapped arm by arm on the way out (`.map(|r| r.map(Frame::data))`): Ok(x) -> Ok(x) or
+            # Ok(data frame of x), Err(e) -> Err(e)
+            if is_agg(g) and g[3] in ("Ok", "Err") and o.cons.variant_of(want) == g[3]:
+                inner_, p_ = agg_get(g, "0"), ("payload", want, g[3], "0")
+                if inner_ == p_ or (g[3] == "Ok" and isinstance(inner_, tuple) and inner_ and inner_[0] == "call" and
+                                    inner_[1].endswith("Frame::<T>::data") and len(inner_[2]) == 1 and inner_[2][0] == p_):
+                    return True
             # an infallible one-shot stores the data itself and wraps it on the way out: Some(Ok(data))
             return plain and is_agg(g) and g[3] == "Ok" and agg_get(g, "0") == want
         okk = got is not None and (got in old_vals or any(
